@@ -66,23 +66,23 @@ var c20LongDir = strings.Repeat("d23456789012345678901234567890/", 8)[:8*31-1]
 
 func c20Setup(dir string) error {
 	files := map[string]string{
-		"a.yaml":            "x: 1\nl: [1]\n",
-		"a.b.yaml":          "y: 2\nl: [2]\n",
-		"a.b.ini":           "y=2\n",
-		"n.txt":             "hello\n",
-		"bad.yaml":          "r: $required\n",
-		"s.yaml":            "k: 1\n---\nk: 2\n",
-		"y.yml":             "p: 1\n",
-		"y.z.yml":           "q: 2\n",
-		"j.json":            "{\"j\": [1, \"x\"]}\n",
-		"orphan.child.yaml": "o: 1\n",
-		"t.yaml":            "l: [1]\n",
-		"t.u.yaml":          "l: {a: 1}\n",
-		"broken.yaml":       "a: [\n",
-		"d1/v.yaml":         "from: d1\n",
-		"d2/v.yaml":         "from: d2\n",
-		"conf[1].yaml":      "br: 1\n",
-		"st*r.yaml":         "st: 1\n",
+		"a.yaml":                  "x: 1\nl: [1]\n",
+		"a.b.yaml":                "y: 2\nl: [2]\n",
+		"a.b.ini":                 "y=2\n",
+		"n.txt":                   "hello\n",
+		"bad.yaml":                "r: $required\n",
+		"s.yaml":                  "k: 1\n---\nk: 2\n",
+		"y.yml":                   "p: 1\n",
+		"y.z.yml":                 "q: 2\n",
+		"j.json":                  "{\"j\": [1, \"x\"]}\n",
+		"orphan.child.yaml":       "o: 1\n",
+		"t.yaml":                  "l: [1]\n",
+		"t.u.yaml":                "l: {a: 1}\n",
+		"broken.yaml":             "a: [\n",
+		"d1/v.yaml":               "from: d1\n",
+		"d2/v.yaml":               "from: d2\n",
+		"conf[1].yaml":            "br: 1\n",
+		"st*r.yaml":               "st: 1\n",
 		c20LongDir + "/deep.yaml": "deep: 1\n",
 	}
 	os.Symlink("a.b.yaml", filepath.Join(dir, "link.yaml"))
